@@ -117,6 +117,34 @@ type Path struct {
 	relativePath string
 }
 
+// treeishPrefix returns the string to which a path within the tree
+// named by the revision expression `name` can be appended. If `name`
+// already has the form `<rev>:<path>`, then further path components
+// are separated by "/"; otherwise (e.g., for a reference that points
+// at a tree, or `<rev>^{tree}`), the path has to be introduced by ":".
+func treeishPrefix(name string) string {
+	depth := 0
+	for i := 0; i < len(name); i++ {
+		switch name[i] {
+		case '{':
+			depth++
+		case '}':
+			if depth > 0 {
+				depth--
+			}
+		case ':':
+			if depth == 0 {
+				if i == len(name)-1 {
+					// `<rev>:` is the top-level tree of `<rev>`.
+					return name
+				}
+				return name + "/"
+			}
+		}
+	}
+	return name + ":"
+}
+
 // Return the path of this object under the assumption that another
 // path component will be appended to it.
 func (p *Path) TreePrefix() string {
@@ -132,7 +160,9 @@ func (p *Path) TreePrefix() string {
 				return p.parent.TreePrefix() + p.relativePath + "/"
 			}
 		case p.relativePath != "":
-			return p.relativePath + "/"
+			// A reference or command-line argument names this tree
+			// directly:
+			return treeishPrefix(p.relativePath)
 		default:
 			// We haven't found anything that refers to this tree
 			// (e.g., it is only reachable via an annotated tag), so
